@@ -93,6 +93,10 @@ def render_assertion(a, sign_key=None, syntax="z"):
         if s.get("name_id") is not None:
             p.append('<saml:NameID Format="urn:oasis:names:tc:SAML:2.0:nameid-format:persistent">%s</saml:NameID>'
                      % xesc(s["name_id"]))
+        if s.get("enc_id") is not None:
+            # <saml:EncryptedID>: the NameID encrypted to the receiver's encryption certificate (or to a key it does not hold)
+            e = s["enc_id"]
+            p.append(encrypted_id(e["name_id"], a["id"], e.get("enc_cert", "sp_enc1") if e.get("decryptable", True) else "attacker"))
         for sc in s.get("confs", []):
             p.append('<saml:SubjectConfirmation Method="%s">' % CM[sc["method"]])
             d = sc.get("data")
@@ -118,9 +122,10 @@ def render_assertion(a, sign_key=None, syntax="z"):
             if c.get(k) is not None:
                 at.append(' %s="%s"' % (an, tstr(c[k], syntax)))
         p.append("<saml:Conditions%s>" % "".join(at))
-        for known in c.get("extra_known", []):
-            p.append('<saml:Condition xmlns:xsi="http://www.w3.org/2001/XMLSchema-instance" xsi:type="%s"/>'
-                     % ("ext:Known" if known else "ext:Unknown"))
+        for typ in c.get("extra", []):
+            # an extension condition: <saml:Condition xsi:type="..."> (None: the xsi:type attribute is missing)
+            p.append('<saml:Condition xmlns:xsi="http://www.w3.org/2001/XMLSchema-instance"%s/>'
+                     % (' xsi:type="%s"' % xesc(typ) if typ is not None else ""))
         for r in c.get("audiences", []):
             p.append("<saml:AudienceRestriction>%s</saml:AudienceRestriction>"
                      % "".join("<saml:Audience>%s</saml:Audience>" % xesc(x) for x in r))
@@ -189,6 +194,25 @@ def encrypt_first_assertion(xml, cert_name):
     return open(out, encoding="utf-8").read()
 
 
+def encrypted_id(name_id, tag, cert_name):
+    """-> <saml:EncryptedID> holding the NameID encrypted to `cert_name` (through the stand-in, like an EncryptedAssertion)."""
+    src = os.path.join(_tmp, "i-in-%d.xml" % os.getpid())
+    tpl = os.path.join(_tmp, "i-tpl-%d.xml" % os.getpid())
+    out = os.path.join(_tmp, "i-out-%d.xml" % os.getpid())
+    with open(src, "w", encoding="utf-8") as f:
+        f.write('<saml:EncryptedID xmlns:saml="%s"><saml:NameID Format="urn:oasis:names:tc:SAML:2.0:nameid-format:persistent">'
+                "%s</saml:NameID></saml:EncryptedID>" % (SAML, xesc(name_id)))
+    with open(tpl, "w", encoding="utf-8") as f:
+        f.write(ENC_TEMPLATE.replace('"ED_1"', '"EDI_%s"' % xesc(tag)).replace('"EK_1"', '"EKI_%s"' % xesc(tag)))
+    xp = "".join('/*[local-name()="%s"]' % n for n in ("EncryptedID", "NameID"))
+    _run(["--encrypt", "--pubkey-cert-pem", S.cert_path(cert_name), "--session-key", "des-192", "--xml-data", src,
+          "--node-xpath", xp, "--output", out, tpl])
+    x = open(out, encoding="utf-8").read()
+    if x.startswith("<?xml"):
+        x = x[x.index("?>") + 2:].lstrip()
+    return x
+
+
 SIGN_KEY = {"valid": "idp_sign", "corrupted": "idp_sign", "untrusted": "attacker"}
 
 
@@ -207,7 +231,11 @@ def render_response(r, syntax="z"):
     rsig = r.get("sig", "absent")
     def key_of(state, elem):
         # a valid / corrupted signature may be made with any signing key the issuer publishes (key roll-over)
-        return elem.get("sig_key") or SIGN_KEY[state] if state in ("valid", "corrupted") else SIGN_KEY[state]
+        # (an `untrusted` signature is made with the attacker's key unless the case names one (`untrusted_key`): a key
+        #  the issuer published in an EARLIER metadata generation is untrusted too, see `play_history`)
+        if state == "untrusted":
+            return elem.get("untrusted_key") or SIGN_KEY[state]
+        return elem.get("sig_key") or SIGN_KEY[state]
 
     sigpart = sig_template(r["id"], key_of(rsig, r), r.get("keyinfo", "cert")) if rsig != "absent" else ""
     status = '<samlp:Status><samlp:StatusCode Value="%s">%s</samlp:StatusCode>%s</samlp:Status>' % (
@@ -287,9 +315,10 @@ def read_sp_defaults():
     raise RuntimeError("attribute_defaults not found in client_base.py")
 
 
-def sp_for(cfg):
+def sp_for(cfg, fresh=False):
+    """fresh=True: a client of its own (a case with a history changes its state, e.g. reloads its metadata)"""
     key = repr(sorted(cfg.items()))
-    if key in _sp_cache:
+    if key in _sp_cache and not fresh:
         return _sp_cache[key]
     spopts = {}
     for opt, name in (("want_resp", "want_response_signed"), ("want_assert", "want_assertions_signed"),
@@ -320,6 +349,9 @@ def sp_for(cfg):
                 spopts[k] = "true" if cfg["form"] == "str" else "True"
             elif v is False:
                 spopts[k] = "false"
+    if cfg.get("ext_schemas"):
+        # extension schema modules of the configuration (`extension_schemas`): what an extension <Condition> may be typed with
+        extra["extension_schemas"] = list(cfg["ext_schemas"])
     conf = S.sp_config(sp=spopts, **extra)
     if cfg.get("config_class") in ("Config", "IdPConfig"):
         # the same dictionary reaching Saml2Client through the generic Config class (combined IdP+SP deployments)
@@ -332,10 +364,44 @@ def sp_for(cfg):
         sp = Saml2Client(config=c)
     else:
         sp = S.make_sp(conf)
+    if fresh:
+        return sp
     if len(_sp_cache) > 64:
         _sp_cache.clear()
     _sp_cache[key] = sp
     return sp
+
+
+def idp_metadata(signing_keys):
+    """metadata in which the IdP publishes exactly `signing_keys` as signing certificates (key roll-over / withdrawal)"""
+    keys = [("signing", k) for k in signing_keys] + [("encryption", "idp_enc")]
+    e = S.default_idp_entity()
+    e["idpsso"] = dict(e["idpsso"], keys=keys)
+    return S.metadata_xml([e, S.default_idp2_entity()])
+
+
+def play_history(sp, history, case):
+    """What the long-lived client went through BEFORE the message under test: earlier messages it processed
+    ({"resp": abstract Response, "now"?, "outstanding"?}) and metadata reloads ({"reload_keys": [...]},
+    Entity.reload_metadata with the IdP's signing certificates replaced).  Returns what each step did."""
+    env = case["env"]
+    done = []
+    for step in history:
+        if "reload_keys" in step:
+            if not sp.reload_metadata({"inline": [idp_metadata(step["reload_keys"])]}):
+                raise RuntimeError("harness: reload_metadata did not succeed")
+            done.append("reloaded")
+        else:
+            xml = render_response(step["resp"], case.get("syntax", "z"))
+            binding = step.get("binding", env["binding"])
+            with S.clock(step.get("now", env["now"])):
+                try:
+                    r = sp.parse_authn_request_response(pack(xml, binding), BINDINGS[binding],
+                                                        {k: v for k, v in step.get("outstanding", env.get("outstanding", []))})
+                    done.append("accepted" if r is not None else "none")
+                except Exception as e:  # an earlier message may be refused; the message under test is judged on its own
+                    done.append(type(e).__name__)
+    return done
 
 
 def own_addrs(binding, endpoints="both"):
@@ -376,8 +442,10 @@ def run_sp(case):
 
 
 def _run_sp(case):
-    sp = sp_for(case["cfg"])
+    sp = sp_for(case["cfg"], fresh=bool(case.get("history")))
     env = case["env"]
+    if case.get("history"):
+        play_history(sp, case["history"], case)
     xml = render_response(case["resp"], case.get("syntax", "z"))
     binding = env["binding"]
     msg = pack(xml, binding)
